@@ -661,6 +661,7 @@ func Run(cfg vh.Config) (*vh.Result, error) {
 		shardNo int
 		nontriv = map[string]bool{}
 		skipped = map[string]int{}
+		reproduced = map[string]bool{}
 	)
 	flush := func() error {
 		if len(terms) == 0 {
@@ -762,7 +763,22 @@ func Run(cfg vh.Config) (*vh.Result, error) {
 				if !obsEqual(ro, c.Obs[i]) {
 					key := "c17-rewrite-mismatch"
 					if class != "" {
+						// a listed deviation class: the difference must be the LISTED one. Where the deviating
+						// behaviour can itself be written as SecLang text (asCoded), the form has to equal that
+						// text, anything else stays a violation; the model comparison (a) covers the rest.
 						key = class
+						if ac := asCodedFor(c, i, class); ac != "" {
+							if awaf, aerr := newWAF(ac); aerr == nil {
+								ao, _ := runTx(awaf, r)
+								res.OracleEvaluations++
+								if !obsEqual(ao, c.Obs[i]) {
+									key = "c17-rewrite-mismatch"
+								}
+							}
+						}
+						if key == class {
+							reproduced[class] = true
+						}
 					}
 					cc := *c
 					cc.Reqs, cc.Obs, cc.Rewritten = []reqJ{r}, []obsJ{c.Obs[i]}, rw
@@ -793,6 +809,10 @@ func Run(cfg vh.Config) (*vh.Result, error) {
 	}
 	res.DistinctNontrivial = len(nontriv)
 	res.Exhaustive = false
+	for k := range reproduced {
+		res.KnownReproduced = append(res.KnownReproduced, k)
+	}
+	sort.Strings(res.KnownReproduced)
 	for k, n := range skipped {
 		res.Notes = append(res.Notes, fmt.Sprintf("oracle (b) not applicable / steered around: %s x%d", k, n))
 	}
